@@ -471,11 +471,61 @@ def seed_variants(seed_dir=None):
     return out
 
 
+def twin_variants(twin_dir=None):
+    """Every confirmed behaviour-preserving refactoring kept under /verif/twins
+    (produced by independent sub-agents, confirmed by tools/confirm_twin.sh) is a
+    twin variant of the check of the property whose mechanism it refactors."""
+    import glob
+    twin_dir = twin_dir or os.path.join(VERIF, "twins")
+    out = []
+    for d in sorted(glob.glob(os.path.join(twin_dir, "*"))):
+        mp, pp_ = os.path.join(d, "meta.json"), os.path.join(d, "patch.diff")
+        if not (os.path.exists(mp) and os.path.exists(pp_)):
+            continue
+        try:
+            with open(mp, encoding="utf-8") as f:
+                m = json.load(f)
+        except ValueError:
+            continue
+        prop = m.get("property")
+        if prop:
+            out.append(Variant(f"twin-{os.path.basename(d)}", prop, "twin", patchfile=pp_))
+    return out
+
+
 def _scratch(root, repo):
+    """Private copy of the analysed sources (src/ and setup.py) - pure Python,
+    no external tool needed."""
     os.makedirs(root)
-    subprocess.run(["rsync", "-a", "--exclude", "*.so", "--exclude", "__pycache__",
-                    "--exclude", "_ext/numerics.c", os.path.join(repo, "src"),
-                    os.path.join(repo, "setup.py"), root + "/"], check=True)
+    shutil.copytree(os.path.join(repo, "src"), os.path.join(root, "src"),
+                    ignore=shutil.ignore_patterns("*.so", "__pycache__", "*.pyc",
+                                                  "build", "*.egg-info"))
+    # generated C of the Cython modules is not a source
+    for dp, dn, fn in os.walk(os.path.join(root, "src")):
+        if dp.endswith("_ext"):
+            for f in fn:
+                if f == "numerics.c":
+                    os.remove(os.path.join(dp, f))
+    sp = os.path.join(repo, "setup.py")
+    if os.path.exists(sp):
+        shutil.copy2(sp, os.path.join(root, "setup.py"))
+
+
+def _apply_patch(diff_text, cwd, reverse=False):
+    """Apply a unified diff with `patch` (fuzz 3) or, failing that, `git apply`."""
+    cmds = [["patch", "-s", "-p1", "--fuzz=3"] + (["-R"] if reverse else []),
+            ["git", "apply", "-p1", "--recount"] + (["-R"] if reverse else [])]
+    for cmd in cmds:
+        try:
+            r = subprocess.run(cmd, input=diff_text, cwd=cwd, capture_output=True, text=True)
+        except OSError:
+            continue
+        if r.returncode == 0:
+            return True
+        # a failed `patch` may have left .rej/.orig files and partial edits:
+        # the caller treats the variant as not applicable
+        return False
+    return False
 
 
 def run_variant(v: Variant, repo: str, tmproot: str, baseline_keys: dict):
@@ -509,19 +559,14 @@ def run_variant(v: Variant, repo: str, tmproot: str, baseline_keys: dict):
         if v.patchfile:
             with open(v.patchfile, encoding="utf-8") as f:
                 diff = f.read()
-            r = subprocess.run(["patch", "-s", "-p1", "--fuzz=3"], input=diff, cwd=w,
-                               capture_output=True, text=True)
-            if r.returncode != 0:
+            if not _apply_patch(diff, w):
                 return v, "skipped", "seeded patch no longer applies to this tree"
         elif v.patch:
             d = subprocess.run(["git", "-C", repo, "show", "--format=", v.patch],
                                capture_output=True, text=True)
             if d.returncode != 0:
                 return v, "skipped", f"commit {v.patch} not found"
-            r = subprocess.run(["patch", "-s", "-p1", "--fuzz=3", "-R"] if v.reverse else
-                               ["patch", "-s", "-p1", "--fuzz=3"], input=d.stdout, cwd=w,
-                               capture_output=True, text=True)
-            if r.returncode != 0:
+            if not _apply_patch(d.stdout, w, reverse=v.reverse):
                 return v, "skipped", "fix no longer reversible on this tree"
         else:
             if v.transform is not None:
@@ -588,7 +633,8 @@ def baseline(props, repo):
 
 def self_validate(prop: str, repo: str, jobs: int = 16):
     """Run all variants of `prop`; returns (results, summary)."""
-    variants = [v for v in CATALOGUE + fix_reverts() + seed_variants() if v.prop == prop]
+    variants = [v for v in CATALOGUE + fix_reverts() + seed_variants() + twin_variants()
+                if v.prop == prop]
     variants.append(Variant("auto-rename-all-locals", prop, "autotwin"))
     variants.append(Variant("auto-reformat-python", prop, "autotwin"))
     variants.append(Variant("auto-rename-kernel-params", prop, "autotwin"))
